@@ -28,7 +28,14 @@
 (* push/pop/record stream of real runs through Enter/Exit/RecordProblem    *)
 (* and judges every answer of the real reader against True....            *)
 (***************************************************************************)
-EXTENDS Naturals, Sequences, FiniteSets, TLC
+EXTENDS Integers, Sequences, FiniteSets, TLC
+
+\* Repairs of the READER assumed by the Rd... transcription ({} = the pinned code).  "rootname": a recorded
+\* pathname is taken as already rooted only if it IS "root" or starts with "root." (pinned: starts with "root", so a
+\* subsystem called "rootfinder" is listed as source "rootfinder");  "getcase": get_case(<int>) resolves an index
+\* that falls on a problem case in the problem table (pinned: the index is handed on to the driver table).
+\* RecorderMC proves Rd = True with the repairs and refutes it without; RecorderJudge does not use Rd.
+CONSTANT Fix
 
 \* ------------------------------------------------------------------------------------------------- strings
 StartsWith(s, p) == Len(p) <= Len(s) /\ SubSeq(s, 1, Len(p)) = p
@@ -193,8 +200,9 @@ Coords(q) == [k \in 1..Len(q) |-> q[k].coord]
 
 \* ------------------------------------------------------------------------------------------------- the reader (transcription)
 \* CaseTable.list_sources (format_version >= 5: from the source column of global_iterations)
+Rooted(src) == IF "rootname" \in Fix THEN src = "root" \/ StartsWith(src, "root.") ELSE StartsWith(src, "root")
 RdTableSources(L, t) == IF t = "driver" THEN {"driver"} ELSE IF t = "problem" THEN {"problem"}
-                        ELSE {IF StartsWith(c.src, "root") THEN c.src ELSE "root." \o c.src : c \in ToSet(Rows(L, t))}
+                        ELSE {IF Rooted(c.src) THEN c.src ELSE "root." \o c.src : c \in ToSet(Rows(L, t))}
 \* SqliteCaseReader.list_sources
 RdListSources(L) == UNION {IF Len(Rows(L, t)) > 0 THEN RdTableSources(L, t) ELSE {} : t \in {"driver", "solver", "system", "problem"}}
 
@@ -250,7 +258,23 @@ RdListCases(L, source, recurse, flat) ==
                  ELSE ErrAns("UnboundLocalError")        \* `cases` is never assigned on this path
        ELSE ErrAns("RuntimeError")
 
+\* SqliteCaseReader.get_case(<int>): "an index into all cases" (Python index: negative counts from the end).
+\* global_iterations[i] names the table and the row; the row's coordinate is then looked up in the tables.  For a
+\* problem row the pinned code has no branch: the INTEGER goes on to the first table, DriverCases.get_case(int) =
+\* the driver table's own i-th key.
+PyPos(n, i) == IF i >= 0 THEN i + 1 ELSE n + i + 1                    \* 1-based position; outside 1..n: IndexError
+RdGetCaseIdx(L, i) ==
+    LET p == PyPos(Len(L), i)
+    IN IF p \notin 1..Len(L) THEN ErrAns("IndexError")
+       ELSE IF Table(L[p].req) # "problem" \/ "getcase" \in Fix THEN FlatAns(<<L[p].coord>>)
+       ELSE LET D == Rows(L, "driver")
+                dp == PyPos(Len(D), i)
+            IN IF dp \in 1..Len(D) THEN FlatAns(<<D[dp].coord>>) ELSE ErrAns("IndexError")
+
 \* ------------------------------------------------------------------------------------------------- what the property states
+\* get_case(i) is the i-th case of list_cases(), i.e. of the execution order
+TrueGetCaseIdx(L, i) == LET p == PyPos(Len(L), i)
+                        IN IF p \in 1..Len(L) THEN FlatAns(<<L[p].coord>>) ELSE ErrAns("IndexError")
 \* the cases recorded while the frame of L[i] was open, then L[i] itself (execution order)
 Desc(L, i) == SubSeq(L, L[i].start + 1, i)
 Inside(L, j, i) == L[i].start < j /\ j < i                         \* case j was recorded inside the frame of case i
@@ -295,6 +319,7 @@ SourceListsExact(L) == \A s \in TrueSources(L) : \A rc \in BOOLEAN :
                           RdListCases(L, s, rc, TRUE) = TrueListCases(L, s, rc, TRUE)
 NestedExact(L) == /\ \A s \in TrueSources(L) \ {"problem"} : RdListCases(L, s, TRUE, FALSE) = TrueListCases(L, s, TRUE, FALSE)
                   /\ RdListCases(L, "", TRUE, FALSE) = TrueListCases(L, "", TRUE, FALSE)
+IndexedExact(L) == \A i \in (-(Len(L) + 1))..Len(L) : RdGetCaseIdx(L, i) = TrueGetCaseIdx(L, i)
 CoordNoRecurse(L) == \A i \in 1..Len(L) : L[i].req # "problem" =>
                         RdListCases(L, L[i].coord, FALSE, TRUE) = TrueListCases(L, L[i].coord, FALSE, TRUE)
 
@@ -309,8 +334,13 @@ CheckPath(Match, name, incl, excl) ==
 \*     pin: set of promoted input names (root namespace);  psrc: promoted input -> absolute name of its source;
 \*     dvs, objs, cons: absolute names of the sources of the design variables / objectives / constraints]
 \* O: the requester's recording_options.
-\* Driver._get_vars_to_record (also used for the Problem, with the problem's options) + driver.record_iteration
-SelDriver(Match, O, V) ==
+\* Driver._get_vars_to_record (also used for the Problem, with the problem's options) + driver.record_iteration.
+\* The selected outputs are: the outputs that pass the filters (only with record_outputs), the design variables /
+\* objectives / constraints their record_* flags select (AFTER includes/excludes, and whatever record_outputs says:
+\* "record_desvars: Set to True to record design variables at the driver level"), the sources of the matching
+\* promoted inputs.  gate = TRUE is the pinned record_iteration, which writes the whole outputs table only when
+\* record_outputs is set (kept to name that behaviour; not what the property states).
+SelDriverG(Match, O, V, gate) ==
     LET chk(n) == CheckPath(Match, n, O.includes, O.excludes)
         outs0 == IF O.record_outputs THEN {n \in V.outs : chk(V.prom[n])} ELSE {}
         res == IF O.record_residuals THEN {n \in V.resids : chk(V.prom[n])} ELSE {}
@@ -320,8 +350,9 @@ SelDriver(Match, O, V) ==
         ins == IF O.record_inputs THEN {n \in V.ins : chk(n)} ELSE {}                         \* absolute input names
         srcs == IF O.record_inputs THEN {V.psrc[p] : p \in {q \in V.pin : chk(q)}} ELSE {}    \* sources of matching promoted inputs
     IN [inp |-> ins,
-        out |-> IF O.record_outputs THEN outs0 \cup vois \cup srcs ELSE {},                   \* record_iteration: the output
-        res |-> res]                                                                          \* table needs record_outputs
+        out |-> IF gate /\ ~O.record_outputs THEN {} ELSE outs0 \cup vois \cup srcs,
+        res |-> res]
+SelDriver(Match, O, V) == SelDriverG(Match, O, V, FALSE)
 \* System._setup_recording + System.record_iteration (V restricted to the system; prom relative to the system)
 SelSystem(Match, O, V) ==
     LET chk(n) == CheckPath(Match, n, O.includes, O.excludes)
